@@ -13,6 +13,7 @@
 import Kopf.Lemmas.C19_Insights
 import Kopf.Lemmas.C19_Ensemble
 import Kopf.Lemmas.C19_Orchestrator
+import Kopf.Lemmas.C19_OrchSkip
 import Kopf.Model.C19_Wiring
 import Kopf.Lemmas.C19_Resources
 namespace Kopf.C19
@@ -1023,5 +1024,75 @@ theorem unlocked_pass_loses_wakeup_witness :
   simp at hr hn
   subst hr hn
   simp [dkey] at hk
+
+/-! ## After a watcher has exited on its own: what a revision of the insights does -/
+
+/-- **Any revision heals — also one that changes nothing.** From EVERY reachable state in which the
+    orchestrator waits — whatever watchers have exited on their own since its last pass (`diedSince`, the
+    residue C19-F6 leaves open) — and for EVERY revision `i` of the insights, in particular `i = s.ins` (an
+    event of a CRD or a namespace that leaves what is served exactly as it was): the revision wakes the
+    orchestrator, the three segments of its pass are enabled one after the other, and when it waits again
+    every served pair has a RUNNING watcher and no exited task is left in the ensemble. This is the bound of
+    C19-F6 ("… until the next revision"); it rests on the pass being unconditional after every wake-up:
+    `skip_noop_revisions_witness`. (Deaths DURING the pass belong to the next round: `diedSince` of the
+    resulting state.) -/
+theorem any_revision_heals (ls : List Orch.Label) (s : Orch.State)
+    (hr : Orch.run (Orch.init true) ls = some s) (hq : Orch.Quiescent s) (i : Insights) :
+    ∃ s', Orch.run s [.revise i, .acquire, .termDone, .spawnAll] = some s' ∧ Orch.Quiescent s' ∧ s'.ins = i ∧
+      s'.diedSince = [] ∧ (∀ k, Target i k → Live s'.ens k) ∧ ∀ t ∈ s'.ens.watchers, t.2 ∉ s'.ens.dead := by
+  unfold Orch.Quiescent at hq
+  have hp := (Orch.oinv_run Orch.oinv_init hr).pcInv
+  simp only [Orch.PcInv, hq] at hp
+  obtain ⟨he, hpend, _⟩ := hp
+  refine ⟨Orch.afterPass s i, Orch.run_revise_pass hq i, rfl, rfl, hpend, ?_⟩
+  have hens : (Orch.afterPass s i).ens = runEvs Ens.empty (s.hist ++ [.pass i]) := by
+    show spawn (terminate s.ens i) (pairs i) = _
+    rw [he, runEvs_append]; rfl
+  rw [hens]
+  exact served_pairs_have_live_watcher s.hist i
+
+/-- a watcher exits while the orchestrator waits; an observer then revises the insights to what they were:
+    the pass runs and the pair is watched again (task 1 replaces the exited task 0) -/
+example :
+    ∃ s, Orch.run (Orch.init true) [.revise ⟨[⟨"kex", true⟩], [none]⟩, .acquire, .termDone, .spawnAll,
+      .die ("kex", none)] = some s ∧ Orch.Quiescent s ∧ s.diedSince = [("kex", none)] ∧
+      ((Orch.run s [.revise s.ins, .acquire, .termDone, .spawnAll]).map (fun s' => (s'.ens.watchers, s'.ens.dead)))
+        = some ([((("kex", none) : Key), 1)], [0]) :=
+  ⟨_, rfl, by unfold Orch.Quiescent; decide, rfl, rfl⟩
+
+/-- **… and the unconditional pass is what does it: an orchestrator that skips the revisions which leave the
+    insights as they were never heals (the variant of Model/C19_OrchSkip; seeded change C19f).** A run of
+    the variant: the served pair gets its watcher, the watcher exits on its own (HTTP 404), an observer
+    revises the insights to the very same value — the CRD was gone and is back before the re-scan, or was
+    merely touched. The orchestrator wakes, finds its snapshot unchanged and goes back to waiting: the pass
+    cannot start (`acquire` is disabled), the served pair has no running watcher, and this stays so however
+    many more such revisions follow (`∀ n`). Of the code as it is the same labels heal: `any_revision_heals`. -/
+theorem skip_noop_revisions_witness :
+    ∃ (ls : List OrchSkip.Label) (s : OrchSkip.State),
+      OrchSkip.run OrchSkip.init ls = some s ∧ Orch.Quiescent s.base ∧ Target s.base.ins ("kex", none) ∧
+      ¬ Live s.base.ens ("kex", none) ∧
+      (∀ b, Orch.step s.base (.revise s.base.ins) = some b →
+          OrchSkip.step ⟨b, s.last⟩ (.obs .acquire) = none) ∧
+      ∀ n, ∃ s', OrchSkip.run s (OrchSkip.rounds s.base.ins n) = some s' ∧ Orch.Quiescent s'.base ∧
+        s'.base.ins = s.base.ins ∧ ¬ Live s'.base.ens ("kex", none) := by
+  have hnl : ¬ Live ({ watchers := [((("kex" : String), (none : Option String)), 0)], next := 1, dead := [0] } : Ensemble)
+      ("kex", none) := by
+    rintro ⟨i, hi, hd⟩
+    have hw : (i = 0) := by
+      have : (("kex", none), i) ∈ [((("kex" : String), (none : Option String)), 0)] := hi
+      simpa using this
+    subst hw
+    exact hd (by decide)
+  refine ⟨[.obs (.revise ⟨[⟨"kex", true⟩], [none]⟩), .obs .acquire, .obs .termDone, .obs .spawnAll,
+           .obs (.die ("kex", none)), .obs (.revise ⟨[⟨"kex", true⟩], [none]⟩), .skip], _, rfl,
+    by unfold Orch.Quiescent; decide, ⟨⟨"kex", true⟩, by simp, none, by simp, rfl⟩, hnl, ?_, ?_⟩
+  · intro b hb
+    have hins : b.ins = ⟨[⟨"kex", true⟩], [none]⟩ := by
+      simp only [Orch.step] at hb
+      split at hb
+      · injection hb with hb; subst hb; rfl
+      · exact absurd hb (by simp)
+    exact OrchSkip.acquire_disabled (by show _ = some b.ins; rw [hins])
+  · exact OrchSkip.rounds_not_live _ (by rfl) (by rfl) _ hnl
 
 end Kopf.C19
